@@ -196,6 +196,22 @@ def run(plan):
                     res.fail(f"refresh raised {o.exc_type}", repr(o.exc))
                     return
                 continue
+            if kind == "caps_notified":
+                # the unit answers the capability query with a notification-type frame only (which the library
+                # ignores by design): whatever it does next, ids keep advancing by one
+                from . import appfault
+                appfault.install(dev)
+                o = await s.do({"op": "caps", "net": [{"app": {"base": "caps", "edit": [["ftype", 5]], "place": "alone"}}]})
+                dev.app_override = None
+                if o.kind != "ok":
+                    res.fail(f"caps raised {o.exc_type}", repr(o.exc))
+                    return
+                if dev.violations:
+                    v = dev.violations[0]
+                    res.fail(f"device-side strict parser rejected a command ({v[0]}: {v[1]})", bytes(v[2]).hex())
+                    return
+                w.fire("capability_query_answered_by_a_notification_only")
+                continue
             if kind == "race_caps":
                 # a poll is waiting for its (slow) state reply while the capabilities are queried again and the
                 # unit now reports a different set of properties
@@ -322,6 +338,8 @@ def gen(j, rng, nops):
             ops.append({"op": "bad_apply", "value": rng.choice([300, -1, 256, 1000, 50.5, 128, 255])})
         elif r < 0.075 and version == 2 and nops <= 40:
             ops.append({"op": "failed_connect_gap", "r": rng.choice([256, 256, 512, 255, 257, 1]), "delay": 4.0})
+        elif r < 0.08:
+            ops.append({"op": "caps_notified"})
         elif r < 0.09:
             sub = [c for c in PROP_CAPS if rng.random() < 0.5] + [(0x0214, b"\x01")]
             rng.shuffle(sub)
